@@ -177,9 +177,10 @@ def fake_self(statuses, tss, owners, hbs, max_pending):
 def mem_pending(s0: int, t0: int, s1: int, t1: int, now: int, max_pending: int) -> bool:
     """
     pre: 0 <= s0 <= 3 and 0 <= s1 <= 3
-    pre: 0 <= max_pending <= 1e9 and -1e12 <= t0 <= 1e12 and -1e12 <= t1 <= 1e12 and -1e12 <= now <= 1e12
+    pre: 0 <= max_pending <= 10**9 and -10**12 <= t0 <= 10**12 and -10**12 <= t1 <= 10**12 and -10**12 <= now <= 10**12
     post: _
     """
+    s0 = pick(s0, 0, 3); s1 = pick(s1, 0, 3)      # statuses decided first; the instants stay symbolic
     NOW[0] = now
     fs = fake_self([s0, s1], [t0, t1], ["r1", "r2"], {}, max_pending)
     got = set(mo.MemOrchestrator.get_pending_invocations_for_recovery(fs))
@@ -189,9 +190,10 @@ def mem_pending(s0: int, t0: int, s1: int, t1: int, now: int, max_pending: int) 
 def mem_running(s0: int, o0: int, s1: int, o1: int, hb1: int, p1: bool, hb2: int, p2: bool, now: int, timeout: int) -> bool:
     """
     pre: 0 <= s0 <= 3 and 0 <= s1 <= 3 and 0 <= o0 <= 2 and 0 <= o1 <= 2
-    pre: 0 <= timeout <= 1e9 and -1e12 <= hb1 <= 1e12 and -1e12 <= hb2 <= 1e12 and -1e12 <= now <= 1e12
+    pre: 0 <= timeout <= 10**9 and -10**12 <= hb1 <= 10**12 and -10**12 <= hb2 <= 10**12 and -10**12 <= now <= 10**12
     post: _
     """
+    s0 = pick(s0, 0, 3); s1 = pick(s1, 0, 3); o0 = pick(o0, 0, 2); o1 = pick(o1, 0, 2)
     NOW[0] = now
     OW = [None, "r1", "r2"]
     fs = fake_self([s0, s1], [0.0, 0.0], [OW[o0], OW[o1]], {"r1": hb1 if p1 else None, "r2": hb2 if p2 else None}, 0.0)
@@ -206,7 +208,7 @@ def mem_running(s0: int, o0: int, s1: int, o1: int, hb1: int, p1: bool, hb2: int
 
 def mem_twin(s0: int, t0: int, now: int, max_pending: int) -> bool:
     """
-    pre: 0 <= s0 <= 3 and 0 <= max_pending <= 1e9 and -1e12 <= t0 <= 1e12 and -1e12 <= now <= 1e12
+    pre: 0 <= s0 <= 3 and 0 <= max_pending <= 10**9 and -10**12 <= t0 <= 10**12 and -10**12 <= now <= 10**12
     post: _
     """
     mem_pending(s0, t0, 0, 0.0, now, max_pending)
@@ -214,10 +216,11 @@ def mem_twin(s0: int, t0: int, now: int, max_pending: int) -> bool:
 
 def mem_canary_strict(s0: int, t0: int, now: int, max_pending: int) -> bool:
     """
-    pre: 0 <= s0 <= 3 and 0 <= max_pending <= 1e9 and -1e12 <= t0 <= 1e12 and -1e12 <= now <= 1e12
+    pre: 0 <= s0 <= 3 and 0 <= max_pending <= 10**9 and -10**12 <= t0 <= 10**12 and -10**12 <= now <= 10**12
     post: _
     """
     # wrong spec on purpose (strict > instead of >=): the boundary now - ts == limit must refute it
+    s0 = pick(s0, 0, 3)
     NOW[0] = now
     fs = fake_self([s0], [t0], ["r1"], {}, max_pending)
     got = set(mo.MemOrchestrator.get_pending_invocations_for_recovery(fs))
@@ -441,12 +444,13 @@ def scenario(kind, which, n, fresh_mask, mover, action, k):
 '''
 
 RECF = r'''
-def rec___KIND_____WHICH__(n: int, fresh_mask: int, mover: int, action: int, k: int) -> bool:
+def rec___KIND_____WHICH_____MOVER__(n: int, fresh_mask: int, action: int, k: int) -> bool:
     """
-    pre: 2 <= n <= 3 and 0 <= fresh_mask <= 7 and 0 <= mover <= 2 and 0 <= action <= 1 and 0 <= k <= KMAX
+    pre: __NLO__ <= n <= 3 and 0 <= fresh_mask <= 7 and 0 <= action <= 1 and 0 <= k <= KMAX
     post: _
     """
-    n = pick(n, 2, 3); fresh_mask = pick(fresh_mask, 0, 7); mover = pick(mover, 0, 2); action = pick(action, 0, 1)
+    mover = __MOVER__
+    n = pick(n, 2, 3); fresh_mask = pick(fresh_mask, 0, 7); action = pick(action, 0, 1)
     if mover >= n or fresh_mask >= (1 << n):
         return True
     with NoTracing():
@@ -490,8 +494,10 @@ def run(ctx: Ctx) -> None:
     conds = []
     for kind in (0, 1):
         for which in (0, 1):
-            src += RECF.replace("__KIND__", str(kind)).replace("__WHICH__", str(which)).replace("KMAX", str(kmax))
-            conds.append(Cond(f"rec_{kind}_{which}", "confirm", 1500, keyfn=_key_from_replay))
+            for mover in (0, 1, 2):
+                src += (RECF.replace("__KIND__", str(kind)).replace("__WHICH__", str(which)).replace("__MOVER__", str(mover))
+                        .replace("__NLO__", "2" if thorough else "3").replace("KMAX", str(kmax)))
+                conds.append(Cond(f"rec_{kind}_{which}_{mover}", "confirm", 1500, keyfn=_key_from_replay))
     src += RECX.replace("KMAX", str(kmax))
     conds.append(Cond("rec_twin", "refute", 60))
     ctx.ch_batch("c04rec", src, conds)
@@ -501,7 +507,7 @@ def run(ctx: Ctx) -> None:
     ctx.bounds = {"sql": "one invocation row (status in {PENDING, RUNNING, other}, owner in {NULL, r1, r2}), two heartbeat rows (present/absent), clock, limits: unbounded reals",
                   "mem scans": "2 invocations, 2 runners, symbolic integer-valued timestamps/heartbeats/clock in [-1e12, 1e12], limits in [0, 1e9]: every boundary (age == limit) is exact, no rounding",
                   "heartbeat histories": "3 ops (thorough: 4) over 8 letters (heartbeat r1/r2 with either atomic-service flag, clock advance 0/30/60/61 s; timeout 60 s)",
-                  "recovery run": f"2-3 invocations, any subset fresh, owner moves one of them (PENDING->RUNNING/KILLED or RUNNING->SUCCESS/KILLED) at preemption point 0..{kmax}; both backends"}
+                  "recovery run": f"3 invocations (thorough: 2-3), any subset fresh, owner moves one of them (PENDING->RUNNING/KILLED or RUNNING->SUCCESS/KILLED) at preemption point 0..{kmax}; both backends"}
     ctx.stubs += ["mem scans run on a SimpleNamespace `self` with symbolic integer-valued instants (the claim is in exact arithmetic; one rounding of `now` in doubles is outside it)", "clock = CounterClock in both orchestrator modules",
                   "status timestamps forced by direct state construction", "CoopLock, sqlite timeout=0, sync history"]
     ctx.assumptions += ["exact arithmetic: `now - limit >= ts` and `now - ts >= limit` differ in doubles by at most one rounding of `now` (~2e-7 s): outside the claim",
